@@ -1512,7 +1512,8 @@ class LuaFormatterWriter(LuaASTEchoWriter):
 
         # Remove excess trailing whitespace at end of file.
         if self._pos == len(self._tokens):
-            spaces = re.sub(br'[ \n]+$', b'\n', spaces)
+            spaces = re.sub(br'[ \n]*\n[ \n]*\Z', b'\n', spaces)
+            spaces = re.sub(br' +\Z', b'', spaces)
 
         # TODO: same-line spacing patterns:
         # - one space before and after binop
